@@ -300,6 +300,11 @@ type authEngine struct {
 	toks  map[string]*tokRec
 	mgr   *fakeMgr
 	srvs  map[string]*srvRec
+	// seconds since t0 at which token recipes are judged (advanced by `late`)
+	nowRel int64
+	// ONE middleware instance per `mt` (as a server has): anything it remembers between requests
+	// - a cache of verified tokens, say - is exercised by the following `req` ops
+	mw *middleware.Auth
 }
 
 // New returns the engine.
@@ -317,6 +322,7 @@ func (e *authEngine) Reset() {
 	e.toks = map[string]*tokRec{}
 	e.mgr = newFakeMgr()
 	e.srvs = map[string]*srvRec{}
+	e.nowRel, e.mw = 0, nil
 }
 
 func hexList(s string) []string {
@@ -713,10 +719,10 @@ func (e *authEngine) gtValid(r *reqSpec) (bool, *tokRec) {
 	if !conf {
 		return false, t
 	}
-	if t.exp != nil && *t.exp <= 0 {
+	if t.exp != nil && *t.exp <= e.nowRel {
 		return false, t
 	}
-	if t.nbf != nil && *t.nbf > 0 {
+	if t.nbf != nil && *t.nbf > e.nowRel {
 		return false, t
 	}
 	if c.aud != "" {
@@ -787,7 +793,10 @@ func jsonError(body []byte) string {
 // runMiddleware drives the real middleware.Auth.Verify inside a gin engine.
 func (e *authEngine) runMiddleware(r *reqSpec) (res mwResult) {
 	eng := gin.New()
-	mw := middleware.NewAuth(e.mtv, log.NewNopLogger())
+	if e.mw == nil {
+		e.mw = middleware.NewAuth(e.mtv, log.NewNopLogger())
+	}
+	mw := e.mw
 	eng.Use(mw.Verify)
 	eng.NoRoute(func(c *gin.Context) {
 		res.ran = true
@@ -1183,15 +1192,15 @@ func (e *authEngine) Step(ws []string, o *Out) string {
 				return "bad-op"
 			}
 			if !(d.raw.Enabled() || len(ts) > 0) {
-				e.mtv, e.ten, e.hasMT, e.noVer = nil, nil, true, true
+				e.mtv, e.ten, e.hasMT, e.noVer, e.mw = nil, nil, true, true, nil
 				return "ok none"
 			}
 			e.mtv = pauth.NewMultiTenantVerifier(d.v, tv)
-			e.ten, e.hasMT, e.noVer = ts, true, false
+			e.ten, e.hasMT, e.noVer, e.mw = ts, true, false, nil
 			return "ok verifier"
 		}
 		e.mtv = pauth.NewMultiTenantVerifier(d.v, tv)
-		e.ten, e.hasMT, e.noVer = ts, true, false
+		e.ten, e.hasMT, e.noVer, e.mw = ts, true, false, nil
 		return "ok"
 	case "tok":
 		if len(ws) != 12 {
@@ -1314,6 +1323,34 @@ func (e *authEngine) Step(ws []string, o *Out) string {
 		e.oracleHit(o, ws[1], s, valid, h, strings.Join(ws, " "))
 		o.Count("hit:" + h.class)
 		return "hit " + h.String()
+	case "late":
+		// the same request twice now and once more <dt> seconds after the case started (tokens
+		// carry exp/nbf relative to the case start): a token accepted before its expiry must be
+		// refused after it, however often it was presented before
+		if len(ws) != 8 {
+			return "bad-op"
+		}
+		s := e.srvs[ws[1]]
+		r, ok := e.parseReq(ws[4], ws[5], ws[6])
+		dt := Atoi(ws[7])
+		if s == nil || !ok || dt <= 0 || dt > 30 {
+			return "bad-op"
+		}
+		var outs []string
+		for i := 0; i < 3; i++ {
+			if i == 2 {
+				if d := time.Until(e.t0.Add(time.Duration(dt)*time.Second + 150*time.Millisecond)); d > 0 {
+					time.Sleep(d)
+				}
+				e.nowRel = int64(dt)
+			}
+			valid, _ := e.gtValid(r)
+			h := e.send(s, ws[2], pathURL(Unhx(ws[3])), nil, r, nil)
+			e.oracleHit(o, ws[1], s, valid, h, fmt.Sprintf("%s (presentation %d)", strings.Join(ws, " "), i+1))
+			outs = append(outs, h.String())
+		}
+		o.Count("late")
+		return "late " + strings.Join(outs, " | ")
 	case "fwd":
 		// hit with admin's `?forward=<node id>` query
 		if len(ws) != 8 {
@@ -1364,7 +1401,7 @@ func (e *authEngine) Step(ws []string, o *Out) string {
 		}
 		e.mgr.mu.Unlock()
 		return "ok"
-	case "http", "tcp", "httpf", "tcpf":
+	case "http", "tcp", "httpf", "tcpf", "tcpx":
 		s := e.srvs["proxy"]
 		if s == nil {
 			return "bad-op"
@@ -1406,6 +1443,32 @@ func (e *authEngine) Step(ws []string, o *Out) string {
 				extra[k] = v
 			}
 			h = e.send(s, "GET", "http://piko.local/", &host, r, extra)
+		} else if ws[0] == "tcpx" {
+			// tcpx <raw path> <decoded path> <host> <hostnp> <isip> <xep> <x> <a> <tenant>
+			if len(ws) != 10 {
+				return "bad-op"
+			}
+			target := "http://127.0.0.1" + Unhx(ws[1])
+			u, err := url.Parse(target)
+			if err != nil || u.Path != Unhx(ws[2]) {
+				return "bad-op lib"
+			}
+			host := Unhx(ws[3])
+			hostnp, _, err := net.SplitHostPort(host)
+			if err != nil {
+				hostnp = host
+			}
+			if hostnp != Unhx(ws[4]) || B01(net.ParseIP(hostnp) != nil) != ws[5] {
+				return "bad-op lib"
+			}
+			if r, ok = e.parseReq(ws[7], ws[8], ws[9]); !ok {
+				return "bad-op"
+			}
+			extra := map[string]string{}
+			if x := Unhx(ws[6]); x != "" {
+				extra["X-Piko-Endpoint"] = x
+			}
+			h = e.send(s, "GET", target, &host, r, extra)
 		} else {
 			if len(ws) != 6 {
 				return "bad-op"
@@ -1428,7 +1491,7 @@ func (e *authEngine) Step(ws []string, o *Out) string {
 		if len(sel) > 0 {
 			selS = Hx(sel[len(sel)-1])
 		}
-		if ws[0] == "http" {
+		if ws[0] == "http" || (ws[0] == "tcpx" && h.stamp != "") {
 			if h.stamp != "" {
 				stamp = h.stamp
 			}
@@ -1550,6 +1613,10 @@ type gen struct {
 	r *mrand.Rand
 	w *bufio.Writer
 	n int
+	// late: the next server case ends with a `late` op (costs five seconds of real time)
+	late bool
+	// forceExp: the next valid token expires this many seconds after the case starts
+	forceExp string
 }
 
 func (g *gen) p(format string, a ...any) { fmt.Fprintf(g.w, format+"\n", a...) }
@@ -1672,6 +1739,9 @@ func (g *gen) tok(id string, c gcfg, defect int, eps []string) gtok {
 	}
 	if g.chance(25) {
 		nbf = Pick(g.r, []string{"-60", "-300", "-3600"})
+	}
+	if g.forceExp != "" {
+		exp, nbf = g.forceExp, "-"
 	}
 	aud, iss := "none", c.iss
 	if c.aud != "" {
@@ -1936,6 +2006,19 @@ func (g *gen) caseSrv(name string) {
 			g.p("fwd %s %s %s %s %s %s %s", kind, m, Hx(p), Hx(Pick(g.r, []string{"n2", "n2", "n1", "zz"})), x, a, tenant)
 		}
 	}
+	if g.late {
+		// a token that expires three seconds after the case started, presented twice while valid
+		// and once more two seconds after its expiry (whatever disconnect-on-expiry says)
+		g.forceExp = "3"
+		g.tok("5", c, 0, nil)
+		g.forceExp = ""
+		p := paths[0]
+		x, a := "bearer:5", "none:-"
+		if g.chance(40) {
+			x, a = a, x
+		}
+		g.p("late %s GET %s %s %s %s 5", kind, Hx(p), x, a, tenant)
+	}
 }
 
 func escapeSeg(r *mrand.Rand, s string) string {
@@ -2048,7 +2131,32 @@ func (g *gen) caseConf(name string) {
 		if len(claims[k]) > 0 && g.chance(55) {
 			ep = Pick(g.r, claims[k])
 		}
-		switch g.r.Intn(4) {
+		switch g.r.Intn(5) {
+		case 4:
+			// a path that extends (or misses) the TCP route, with an endpoint named by header/Host:
+			// gin captures `:endpointID` on the partial match although the no-route chain runs
+			host, xep := hostFor(g.r, Pick(g.r, epAlphabet)), ""
+			if g.chance(70) {
+				xep = Pick(g.r, epAlphabet)
+			}
+			if strings.ContainsAny(host, " é✓%") {
+				host = "ep.piko.example.com"
+			}
+			hostnp, _, err := net.SplitHostPort(host)
+			if err != nil {
+				hostnp = host
+			}
+			if ep == "" {
+				ep = "ep"
+			}
+			raw := Pick(g.r, []string{"/_piko/v1/tcp/" + url.PathEscape(ep) + "/" + Pick(g.r, []string{"x", "ep", "a/b"}),
+				"/_piko/v1/tcp/" + url.PathEscape(ep), "/_piko/v1/tcpx/" + url.PathEscape(ep), "/" + url.PathEscape(ep),
+				"/_piko/v1/tcp/" + url.PathEscape(ep) + "/x"})
+			u, err := url.Parse("http://127.0.0.1" + raw)
+			if err != nil {
+				continue
+			}
+			g.p("tcpx %s %s %s %s %s %s %s %s %s", Hx(raw), Hx(u.Path), Hx(host), Hx(hostnp), B01(net.ParseIP(hostnp) != nil), Hx(xep), x, a, tenant)
 		case 0, 1:
 			host, xep := hostFor(g.r, ep), ""
 			switch g.r.Intn(4) {
@@ -2091,8 +2199,15 @@ func (g *gen) caseConf(name string) {
 
 func (e *authEngine) Gen(r *mrand.Rand, n int, tier string, w *bufio.Writer) {
 	g := &gen{r: r, w: w}
+	lateEvery := 400 // one time-passing case per this many cases (each costs ~5 s of wall time)
 	for i := 0; i < n; i++ {
 		name := fmt.Sprintf("g%d", i)
+		if i%lateEvery == lateEvery/2 {
+			g.late = true
+			g.caseSrv(name + "-srv-late")
+			g.late = false
+			continue
+		}
 		switch k := r.Intn(100); {
 		case k < 45:
 			g.caseMW(name + "-mw")
